@@ -293,13 +293,14 @@ def sweep(prog, tier, deadline, procs=16):
     import time
     _PROG[0] = prog
     cs = list(cases(tier))
-    tot = {'paths': 0, 'queries': 0, 'solver_s': 0.0, 'bad': [], 'inconclusive': [], 'functions': set(), 'models': set(),
+    tot = {'paths': 0, 'queries': 0, 'solver_s': 0.0, 'nontrivial': 0, 'bad': [], 'inconclusive': [], 'functions': set(), 'models': set(),
            'samples': [], 'cases': len(cs), 'cases_done': 0}
     ctx = mp.get_context('fork')
     with ctx.Pool(procs) as pool:
         for res, st, fns, mods, inc in pool.imap_unordered(_worker, cs):
             tot['cases_done'] += 1
             tot['paths'] += st['paths']
+            tot['nontrivial'] += st.get('nontrivial', 0)
             tot['queries'] += st['queries']
             tot['solver_s'] += st['solver_s']
             tot['bad'] += res['bad']
